@@ -77,7 +77,7 @@ def main():
         })
     m = {
         "version": 1,
-        "setup_cmd": "cd lean && lake build CodeLimit cldriver",
+        "setup_cmd": "cd lean && lake build cldriver && (lake build CodeLimit || true)",
         "hooks": {
             "guard": "CODELIMIT_VERIF",
             "enable": "no source hooks are needed: the harness wraps codelimit functions from outside (monkeypatching in its own process); checks export CODELIMIT_VERIF=1 in their own environment only",
